@@ -252,7 +252,7 @@ func exhaustiveC20(yield func(c c20Case) bool) {
 	str := kit.SV("a")
 	one := kit.IV(1)
 	atom := func(e *kit.Expr) (kit.QuerySpec, bool) { return kit.QuerySpec{Kind: "people", Pred: e}, true }
-	scalar := map[string]string{"sa": "s", "sb": "s", "ia": "i", "ib": "i", "fa": "f", "ba": "b", "ta": "t", "boss": "s", "home": "s", "tags.k": "any", "tags.sub.k": "any", "tags.sub.n": "any"}
+	scalar := map[string]string{"sa": "s", "sb": "s", "ia": "i", "ib": "i", "fa": "f", "ba": "b", "ta": "t", "boss": "s", "home": "s", "tags.k": "any", "tags.sub.k": "any", "tags.sub.n": "any", "tags.sub.deep.k": "any"}
 	sets := map[string]bool{"roles": true, "nums": true, "places": true, "peers": true}
 	positions := []pos{
 		{"cmp", func(sym string) (kit.QuerySpec, bool) {
